@@ -75,6 +75,10 @@ def run_kind(ctx, kind, loop):
     # client before (an application factory, a fresh Client per attempt): the
     # helpers must reach the one it is registered with *now*
     decoy = make_target(kind)[0]
+    refuser = make_target({'Namespace': 'AsyncNamespace',
+                           'AsyncNamespace': 'Namespace',
+                           'ClientNamespace': 'AsyncClientNamespace',
+                           'AsyncClientNamespace': 'ClientNamespace'}[kind])[0]
     stray = []
     for reg in REG_NAMESPACES:
         nsobj = ns_cls(reg)
@@ -82,6 +86,18 @@ def run_kind(ctx, kind, loop):
             decoy.register_namespace(nsobj)
             ctx.count('re_registrations')
         target.register_namespace(nsobj)
+        if reg in ('/reg', '/é'):
+            # a registration attempt that is refused (an owner of the other
+            # concurrency flavour) leaves the object with the owner it is
+            # registered with
+            try:
+                refuser.register_namespace(nsobj)
+            except ValueError:
+                ctx.count('refused_registrations')
+            else:
+                ctx.violation(None, '%s accepted a namespace object of the '
+                              'other concurrency flavour' %
+                              type(refuser).__name__, {'class': kind})
         if not inspect.iscoroutinefunction(getattr(type(target), 'emit')):
             if not concurrent_helpers(ctx, kind, target, nsobj, reg):
                 return
@@ -122,12 +138,14 @@ def run_kind(ctx, kind, loop):
                     return co()
                 return None
             setattr(decoy, helper, stray_rec)
+            setattr(refuser, helper, stray_rec)
             try:
                 explore_helper(ctx, kind, helper, nsobj, reg, real_params,
                                calls, result, loop)
             finally:
                 delattr(target, helper)
                 delattr(decoy, helper)
+                delattr(refuser, helper)
             if stray:
                 ctx.violation(None, '%s.%s of a namespace object that had '
                               'been registered with another %s before '
@@ -217,7 +235,7 @@ def explore_helper(ctx, kind, helper, nsobj, reg, real_params, calls, result,
     for r in range(len(optional) + 1):
         for subset in itertools.combinations(optional, r):
             for form in ('kw', 'pos'):
-                for valkind in ('sentinel', 'falsy'):
+                for valkind in ('sentinel', 'falsy', 'container'):
                     n += 1
                     one_call(ctx, kind, helper, nsobj, reg, hparams,
                              required, subset, form, valkind, calls, result,
@@ -229,10 +247,18 @@ def explore_helper(ctx, kind, helper, nsobj, reg, real_params, calls, result,
 def one_call(ctx, kind, helper, nsobj, reg, hparams, required, subset, form,
              valkind, calls, result, loop, n):
     given = {}
-    for p in required:
-        given[p.name] = Sentinel('%s-%d' % (p.name, n))
+
+    def container(j):
+        # (tuples are legitimate room names, lists legitimate targets and
+        # payloads: whatever it is, the same object reaches the method)
+        return [('table', n), ['a', 'b', n], {'x', n}, {'k': n}][j % 4]
+    for j, p in enumerate(required):
+        given[p.name] = container(n + j) if valkind == 'container' else \
+            Sentinel('%s-%d' % (p.name, n))
     for i, p in enumerate(subset):
-        if valkind == 'falsy' and p.name != 'namespace':
+        if valkind == 'container' and p.name != 'namespace':
+            given[p.name] = container(n + i + 1)
+        elif valkind == 'falsy' and p.name != 'namespace':
             given[p.name] = FALSY[(n + i) % len(FALSY)]
         elif p.name == 'namespace':
             given[p.name] = '/explicit-%d' % n
